@@ -15,9 +15,9 @@ use serde_json::json;
 pub const META: PropMeta = PropMeta {
     id: "C09",
     level: "exploration",
-    rule: "cases = registries that contain every heap-allocated prelude type (Vec, String, Box, BTreeMap, BTreeSet, BinaryHeap, VecDeque, Cow) at field, nested and substituted-argument positions, multi-line docs on types and variants, compact fields, bit sequences, explicit variant indices (simulator programs, plus one hand-built 'all heap types' program per shard); each generated under ALL 2^6 combinations of {alloc path std/custom, docs on/off, codec attributes on/off, root name a/b, compact path a/b, decoded-bits path a/b}. Oracles: (i) honoured: with a custom alloc path the identifier `std` occurs nowhere; docs off => no doc attribute, docs on => item and variant docs equal the registry's lines in order; codec off => no generator-emitted codec attribute, codec on => every variant index and compact marker present (bisimulation with index check on every generated id); (ii) orthogonal: a token-tree normaliser removes exactly the tokens each switch governs (doc attributes, codec attributes, the alloc prefix, the root identifier, the compact path, the bits path); all 64 normalised outputs must be identical, which implies that every single-switch edge of the hypercube changes nothing else. non-trivial = registry with >= 1 heap-allocated prelude type and >= 1 doc line; distinct by registry hash.",
+    rule: "cases = registries that contain every heap-allocated prelude type (Vec, String, Box, BTreeMap, BTreeSet, BinaryHeap, VecDeque, Cow) at field, nested and substituted-argument positions, multi-line docs on types and variants, compact fields, bit sequences, explicit variant indices (simulator programs, plus one hand-built 'all heap types' program per shard); each generated under ALL 2^6 combinations of {alloc path std/custom, docs on/off, codec attributes on/off, root name a/b, compact path a/b, decoded-bits path a/b}, followed on the same thread by 4 combinations with THIRD values (a second custom alloc path, third compact / bits paths, a third root name) - a path remembered from an earlier generation must not reappear. Oracles: (i) honoured: with a custom alloc path the identifier `std` occurs nowhere; docs off => no doc attribute, docs on => item and variant docs equal the registry's lines in order; codec off => no generator-emitted codec attribute, codec on => every variant index and compact marker present (bisimulation with index check on every generated id); (ii) orthogonal: a token-tree normaliser removes exactly the tokens each switch governs (doc attributes, codec attributes, the alloc prefix, the root identifier, the compact path, the bits path); all 64 normalised outputs must be identical, which implies that every single-switch edge of the hypercube changes nothing else. non-trivial = registry with >= 1 heap-allocated prelude type and >= 1 doc line; distinct by registry hash.",
     assumptions: &["the custom alloc path, both compact paths, both bits paths and both root names are chosen so that none of their identifiers occurs anywhere else in the output"],
-    required_counters: &["combinations_generated", "hypercube_edges_implied", "heap_types[Vec]", "heap_types[String]", "heap_types[Box]", "heap_types[BTreeMap]", "heap_types[BTreeSet]", "heap_types[BinaryHeap]", "docs_compared"],
+    required_counters: &["combinations_generated", "third_value_combinations", "hypercube_edges_implied", "heap_types[Vec]", "heap_types[String]", "heap_types[Box]", "heap_types[BTreeMap]", "heap_types[BTreeSet]", "heap_types[BinaryHeap]", "docs_compared"],
     floor: (200, 4000),
     shards: (16, 16),
 };
@@ -27,7 +27,29 @@ const COMPACT: [&str; 2] = ["::zz_codec_a::CompactA", "::zz_codec_b::inner::Comp
 const BITS: [&str; 2] = ["::zz_bits_a::BitsA", "::zz_bits_b::BitsB"];
 const ROOT: [&str; 2] = ["zz_root_a", "zz_root_b"];
 
+/// Combinations 64..: every switch "on" but with THIRD values for the paths (a second custom alloc
+/// path, a third compact / bits path, a third root name), generated after the 64 combinations on
+/// the same thread - what a cache keyed by "is the path custom?" instead of by the path would get
+/// wrong. The spec treats them like any other combination (same normalised output).
+const EXTRA: u32 = 4;
+const ALLOC_C: &str = "::zz_other_alloc::reexport";
+
 pub fn combo(k: u32, substitutes: &[(String, String)]) -> SDesc {
+    if k >= 64 {
+        let mut d = combo(63 - (k & 1) * 6, substitutes);
+        let j = k - 64;
+        d.alloc = Some(ALLOC_C.into());
+        if j >= 1 {
+            d.compact_path = Some("::zz_codec_c::CompactC".into());
+        }
+        if j >= 2 {
+            d.bits_path = Some("::zz_bits_c::deep::BitsC".into());
+        }
+        if j >= 3 {
+            d.root = "zz_root_c".into();
+        }
+        return d;
+    }
     let mut d = SDesc::default();
     d.alloc = if k & 1 != 0 { Some(ALLOC_B.into()) } else { None };
     d.docs = k & 2 != 0;
@@ -153,7 +175,7 @@ pub fn judge(ctx: &mut Ctx, r: &PortableRegistry, substitutes: &[(String, String
     let mut canon: Option<(u32, String)> = None;
     let mut any_ok = false;
     let mut has_docs = false;
-    for k in 0..64u32 {
+    for k in 0..64u32 + EXTRA {
         let d = combo(k, substitutes);
         let settings = d.build();
         let run = generate(r, &settings);
@@ -182,7 +204,13 @@ pub fn judge(ctx: &mut Ctx, r: &PortableRegistry, substitutes: &[(String, String
         any_ok = true;
         // (i) honoured
         if d.alloc.is_some() && contains_ident(&tokens, "std") {
-            ctx.violation("C09:std-with-custom-alloc", format!("combination {k}: identifier `std` occurs although the alloc path is {ALLOC_B}"), replay(k));
+            ctx.violation("C09:std-with-custom-alloc", format!("combination {k}: identifier `std` occurs although the alloc path is {}", d.alloc_str()), replay(k));
+        }
+        if k >= 64 {
+            ctx.count("third_value_combinations", 1);
+            if contains_ident(&tokens, "zz_alloc") {
+                ctx.violation("C09:stale-alloc-path", format!("combination {k}: the alloc path of an EARLIER generation (`{ALLOC_B}`) occurs although this one uses `{ALLOC_C}`"), replay(k));
+            }
         }
         let cm = match CModel::parse(tokens.clone()) {
             Ok(cm) => cm,
@@ -277,7 +305,7 @@ pub fn judge(ctx: &mut Ctx, r: &PortableRegistry, substitutes: &[(String, String
                     let diff_at = c.chars().zip(normal.chars()).position(|(a, b)| a != b).unwrap_or(c.len().min(normal.len()));
                     let ctx_a: String = c.chars().skip(diff_at.saturating_sub(60)).take(160).collect();
                     let ctx_b: String = normal.chars().skip(diff_at.saturating_sub(60)).take(160).collect();
-                    let bits = k ^ k0;
+                    let bits = if k >= 64 { 0b111001 } else { k ^ k0 };
                     let names = ["alloc", "docs", "codec", "root", "compact-path", "bits-path"];
                     let which: Vec<&str> = (0..6).filter(|b| bits & (1 << b) != 0).map(|b| names[b]).collect();
                     ctx.violation(
